@@ -542,6 +542,18 @@ def _o_broadcast(stats, item):
     os_ = stats.order_stats
     col_n = np.array(ns).reshape(-1, 1)
     col_r = np.array(rs).reshape(-1, 1)
+    keep_n, keep_r = col_n.copy(), col_r.copy()
+
+    def unchanged(which):
+        # the caller's arrays are reused from call to call (a k table for several confidence levels from one n vector):
+        # they must come back as they went in
+        if col_n.tobytes() != keep_n.tobytes() or col_r.tobytes() != keep_r.tobytes():
+            out.append({"family": "argument-array-modified-" + which, "what": "the caller's n / r array is changed by the call (%s)"
+                        % which, "input": inp, "observed": [col_n.ravel().tolist(), col_r.ravel().tolist()],
+                        "required": [keep_n.ravel().tolist(), keep_r.ravel().tolist()]})
+            col_n[...] = keep_n
+            col_r[...] = keep_r
+
     for which, kw, scal in (
         ("r", dict(p=ps, c=cs, n=col_n), lambda i, j: _call(os_, "r", p=ps[j], c=cs, n=ns[i])),
         ("n", dict(p=ps, c=cs, r=col_r), lambda i, j: _call(os_, "n", p=ps[j], c=cs, r=rs[i])),
@@ -552,6 +564,7 @@ def _o_broadcast(stats, item):
     ):
         if which == "p":
             arr = _call(os_, "p", **kw)
+            unchanged("p")
             want = [[_call(os_, "p", c=cs, n=ns[i], r=rs[i])] for i in range(2)]
             if isinstance(arr, str) or np.shape(arr) != (2, 1) or not np.allclose(arr, want, rtol=0, atol=1e-9):
                 fail("p", np.asarray(arr).tolist() if not isinstance(arr, str) else arr, want)
@@ -560,6 +573,7 @@ def _o_broadcast(stats, item):
             arr = _call(getattr(stats, which), ps, cs, col_n)
         else:
             arr = _call(os_, which, **kw)
+        unchanged(which)
         want = [[scal(i, j) for j in range(3)] for i in range(2)]
         if any(isinstance(w, str) for row in want for w in row):
             continue  # scalar failures are reported by the scalar checks
